@@ -53,6 +53,9 @@ def lower_unit(unit, workdir):
     try:
         docs = cxx2c.ast_dump(unit.SRC, unit.AST_FILTER, workdir, getattr(unit, 'CLANG_ARGS', ()))
         prof = unit.Profile(set(unit.FUNCS), set(unit.THROWING))
+        prof.unit_src = unit.SRC
+        prof.unit_namespace = getattr(unit, 'NAMESPACE', None)
+        prof.unit_libs = getattr(unit, 'LIBS', [])
         if hasattr(prof, 'prepare'):
             prof.prepare(docs, workdir)
         if hasattr(unit, 'lower'):
@@ -317,7 +320,7 @@ def run_harness(unit, h, src_c, workdir, label_by_line, mode='proof', solver=Non
             if r not in repl and re.search(r'\b%s\(' % r, text.split('/*@@BODIES@@*/')[-1]):
                 repl.append(r)
     for r in repl:
-        gi += ['--replace-call-with-contract', r if (r.startswith('bl_') or r.startswith(cn)) else cn + r]
+        gi += ['--replace-call-with-contract', (cn + r) if r in unit.CONTRACTS else r]
     if mode == 'proof':
         gi += ['--apply-loop-contracts']
     gi += [base + '.a.gb', base + '.b.gb']
